@@ -1,6 +1,6 @@
 #!/bin/bash
 # usage: confirm_seed.sh <worktree> <seed dir> : independently confirm a seeded change (tests pass, demo fails with / passes without)
-WT="$1"; OUT="$2"; LOG="$OUT/confirm.log"
+WT="$1"; OUT="$2"; EXTRA="$3"; LOG="$OUT/confirm.log"
 {
 set -x
 cd "$WT" || exit 9
@@ -10,9 +10,9 @@ cmake -G Ninja -S "$WT" -B "$WT/_build" -DPHYSICAL_QUANTITIES_PHQ_TEST=ON -DCMAK
 cmake --build "$WT/_build" -j8 2>&1 | tail -2
 ctest --test-dir "$WT/_build" -j4 --timeout 900 2>&1 | grep -E "tests passed|Failed|\*\*\*" | head -10
 FAILED=$(ctest --test-dir "$WT/_build" -j4 --timeout 900 2>&1 | grep -E "\(Failed\)" | grep -v Performance | wc -l)
-g++ -std=c++17 -O0 -I"$WT/include" "$OUT/demo.cc" -o "$OUT/demo_with" && "$OUT/demo_with" > "$OUT/demo_with.out" 2>&1; RC_WITH=$?
+g++ -std=c++17 -O0 $EXTRA -I"$WT/include" "$OUT/demo.cc" -o "$OUT/demo_with" && "$OUT/demo_with" > "$OUT/demo_with.out" 2>&1; RC_WITH=$?
 git -C "$WT" checkout -q -- .
-g++ -std=c++17 -O0 -I"$WT/include" "$OUT/demo.cc" -o "$OUT/demo_without" && "$OUT/demo_without" > "$OUT/demo_without.out" 2>&1; RC_WITHOUT=$?
+g++ -std=c++17 -O0 $EXTRA -I"$WT/include" "$OUT/demo.cc" -o "$OUT/demo_without" && "$OUT/demo_without" > "$OUT/demo_without.out" 2>&1; RC_WITHOUT=$?
 git -C "$WT" apply "$OUT/patch.diff"
 rm -rf "$WT/_build" "$OUT/demo_with" "$OUT/demo_without" "$OUT/demo"
 set +x
